@@ -417,7 +417,10 @@ func main() {
 			}
 		}
 		if i%40 == 0 {
-			enc, _ := geojson.Encode(build(Case{Skel: s, Rot: i % np, Bad: -1}))
+			var enc []byte
+			if p := try(func() { enc, _ = geojson.Encode(build(Case{Skel: s, Rot: i % np, Bad: -1})) }); p != "" {
+				r.Violation("encode-panic|sample", p)
+			}
 			r.Sample(10, string(enc))
 		}
 	})
